@@ -138,11 +138,11 @@ func (f Flag) Consumes(arg string) bool {
 		return false
 	case f.IsOptarg():
 		return false
+	case f.Nargs() < 0:
+		return !strings.HasPrefix(arg, "-") // any number of arguments up to the next flag (which can be the first word)
 	case len(f.Args) == 0:
 		return true
 	case f.Nargs() > 1 && len(f.Args) < f.Nargs():
-		return true
-	case f.Nargs() < 0 && !strings.HasPrefix(arg, "-"):
 		return true
 	default:
 		return false
